@@ -2,3 +2,4 @@ import DdsProofs.Props.C05
 import DdsProofs.Props.C13
 import DdsProofs.Props.C14
 import DdsProofs.Props.C11
+import DdsProofs.Props.C12
